@@ -410,6 +410,13 @@ def compare_single(out, c, res, results, idx, B):
     if res["mean_delta"] != 0.0 or not res["cls_same"] or (multi and not res["layout_same"]):
         out.fail(key + ":mean", "marginal changed the mean / class / layout of the input distribution", desc)
         ok = False
+    if not is_mismatch(c):
+        ev = [c["n"], c["t"]] if multi else [N]
+        for name, x, want in (("conditional", res["condvar"], B + ev), ("expected_log_prob", res["elp"], B + [c["n"]]),
+                              ("log_marginal", res["lm"], B + [c["n"]])):
+            if list(x.shape) != want:
+                out.fail(key + ":" + name + ":shape", "%s has shape %s, expected %s" % (name, list(x.shape), want), desc)
+                return False
     for b, r in zip(idx, results):
         rd = C.Reader(r)
         R = rd.qmat(N, N)
